@@ -284,6 +284,57 @@ pub fn replay(case: &serde_json::Value) -> i32 {
     1
 }
 
+/// Part (c): the *mode* of the parent's open files. The shell makes a descriptor non-blocking
+/// around its own reads and writes; an open file description is shared with every subshell, so the
+/// flag one process sets is seen by all. Scripts in which several subshells read from / write to
+/// a pipe the parent keeps open, under every schedule (+ syscall-tap preemption): once all
+/// children are gone, none of the parent's descriptors is left non-blocking. Returns executions.
+fn shared_file_modes(ctx: &Ctx, thorough: bool) -> u64 {
+    let scripts = [
+        "mkpipe 3 4\nread a <&3 | read b <&3 | { echo l1; echo l2; } >&4\nnb after\nexec 3<&- 4>&-\ns 0",
+        "mkpipe 3 4\n(read a <&3) | (read b <&3) | (read c <&3) | { echo 1; echo 2; echo 3; } >&4\nnb after\nexec 3<&- 4>&-\ns 0",
+        "mkpipe 3 4\n{ read a <&3; } &\n{ read b <&3; } &\necho l1 >&4; echo l2 >&4\nwait\nnb after\nexec 3<&- 4>&-\ns 0",
+        "mkpipe 3 4\nx=$(read a <&3 | read b <&3 | { echo l1; echo l2; } >&4)\nnb after\nexec 3<&- 4>&-\ns 0",
+        "mkpipe 3 4\n{ read a; read b; } <&3 | read c <&3 | { echo 1; echo 2; echo 3; } >&4\nnb after\nexec 3<&- 4>&-\ns 0",
+        "mkpipe 3 4\nread a <&3 | { echo l1; echo l2; } >&4 | read b <&3\nnb after\nread c <&3 | echo l3 >&4\nnb after\nexec 3<&- 4>&-\ns 0",
+    ];
+    let execs = AtomicU64::new(0);
+    scripts.par_iter().for_each(|script| {
+        let setup = Setup::script(script);
+        for ph in [Explore { max_dev: usize::MAX, taps: false, cap_runs: if thorough { 20000 } else { 3000 } }, Explore { max_dev: if thorough { 2 } else { 1 }, taps: true, cap_runs: if thorough { 20000 } else { 3000 } }] {
+            let mut failed = false;
+            let stats = explore(&setup, &ph, &RunOpts::default(), |r, prefix| {
+                if r.diverged {
+                    return true;
+                }
+                let case = || json!({"script": script, "prefix": prefix, "taps": ph.taps, "kind": "shared-file-mode"});
+                if r.panic.is_some() || !matches!(r.end, End::Exited(0)) {
+                    ctx.violation("c08:shared-file-mode-end", &format!("{script}: {:?} {:?} stderr={:?}", r.end, r.panic, r.stderr), case());
+                    failed = true;
+                    return false;
+                }
+                let tr = r.all_trace();
+                let dumps: Vec<&String> = tr.iter().filter(|t| t.starts_with("nb after ")).collect();
+                if dumps.is_empty() || dumps.iter().any(|t| t.as_str() != "nb after []") {
+                    ctx.violation(
+                        "c08:subshells-left-parent-descriptor-non-blocking",
+                        &format!("{script}: after all children were gone the parent's descriptors with O_NONBLOCK set are {dumps:?}"),
+                        case(),
+                    );
+                    failed = true;
+                    return false;
+                }
+                true
+            });
+            execs.fetch_add(stats.runs as u64, Relaxed);
+            if failed {
+                break;
+            }
+        }
+    });
+    execs.load(Relaxed)
+}
+
 /// Interactive shell: a child environment (command substitution, subshell, pipeline element) is
 /// killed by SIGINT at every one of its system calls. The interrupt abandons the command line,
 /// but the parent's descriptor table must be what it was: returns the number of executions.
@@ -353,6 +404,7 @@ fn interrupted_children(ctx: &Ctx) -> u64 {
 pub fn run(tier: Tier) -> i32 {
     let ctx = Ctx::new("C08", "model_checking", tier);
     let interactive_runs = interrupted_children(&ctx);
+    let mode_runs = shared_file_modes(&ctx, tier == Tier::Thorough);
     let thorough = tier == Tier::Thorough;
     let mut cases = vec![];
     for prelude in 0..PRELUDES.len() {
@@ -434,10 +486,11 @@ pub fn run(tier: Tier) -> i32 {
     let cov = json!({
         "states": points.load(Relaxed) + execs.load(Relaxed),
         "transitions": steps.load(Relaxed),
-        "traces_validated_against_impl": execs.load(Relaxed),
+        "traces_validated_against_impl": execs.load(Relaxed) + mode_runs,
         "samples": samples.take(),
         "programs": cases.len(),
         "interactive_executions_with_a_child_killed_by_sigint": interactive_runs,
+        "shared_file_mode_executions": mode_runs,
         "programs_where_the_mutation_changed_the_child_state": nontriv.load(Relaxed),
         "executions": execs.load(Relaxed),
         "decision_points": points.load(Relaxed),
